@@ -14,6 +14,7 @@ import (
 	"errors"
 	"fmt"
 	"io"
+	"sync"
 	"time"
 
 	"github.com/SAP/go-dblib/asetypes"
@@ -153,16 +154,13 @@ func RxRun(need, nenv, ps0 int, pkts []Pkt) (res sx.L, fed int) {
 		pkt.Header.Channel = uint16(p.Channel)
 		pkt.Header.PacketNr = uint8(p.Nr)
 		pkt.Header.Window = uint8(p.Window)
-		panicked := false
-		func() {
-			defer func() {
-				if r := recover(); r != nil {
-					panicked = true
-				}
-			}()
-			ch.WritePacket(pkt)
-		}()
+		panicked := feedPacket(ch, pkt)
 		fed++
+		if panicked {
+			// the channel's locks may still be held by the panicked call: do not touch it again
+			res = append(res, sx.L{sx.L{sx.L{sx.I(7), sx.I(-1)}}, sx.I(0)})
+			break
+		}
 		var evs sx.L
 		j := 0
 		hi := 0
@@ -209,6 +207,28 @@ func RxRun(need, nenv, ps0 int, pkts []Pkt) (res sx.L, fed int) {
 		}
 	}
 	return res, fed
+}
+
+// feedPacket hands a packet to the channel as the reader goroutine would. A panic is recovered and a call that does
+// not return within 5 s (e.g. blocked for good on a full error queue) is abandoned; both are reported as true:
+// the channel must not be touched afterwards (its locks may be held).
+func feedPacket(ch *tds.Channel, pkt *tds.Packet) bool {
+	done := make(chan bool, 1)
+	go func() {
+		defer func() {
+			if r := recover(); r != nil {
+				done <- true
+			}
+		}()
+		ch.WritePacket(pkt)
+		done <- false
+	}()
+	select {
+	case p := <-done:
+		return p
+	case <-time.After(5 * time.Second):
+		return true
+	}
 }
 
 // ---------------------------------------------------------------- response grammar
@@ -378,6 +398,9 @@ func Packetise(msg []byte, cuts []int) []Pkt {
 }
 
 func emitRx(g *pk.Gen, need, nenv, ps0 int, pkts []Pkt, tag string) {
+	if !g.WantTag(tag) {
+		return
+	}
 	res, fed := RxRun(need, nenv, ps0, pkts)
 	var in sx.L
 	for _, p := range pkts[:fed] {
@@ -521,11 +544,15 @@ func GenRx(g *pk.Gen) {
 // call   (0) NextPackage(wait=false) | (1 k outcome) NextPackageUntil with a callback answering "continue" for the first k
 //        non-EED packages and then outcome (1 stop, 2 io.EOF, 3 error; 0 = always continue) | (2) NextPackageUntil(nil)
 // output per round: ((result queueLenAfter) ...) ; result as Rx/Consumer.v ures_tree / nres code
-type Call struct{ Kind, K, Outcome int }
+type Call struct {
+	Kind, K, Outcome int
+	WrapEOF          bool // outcome 3 only: the callback's error wraps io.EOF (still an error, not the io.EOF signal)
+}
 
 func (c Call) tree() sx.T { return sx.L{sx.I(int64(c.Kind)), sx.I(int64(c.K)), sx.I(int64(c.Outcome))} }
 
 var errCb = errors.New("callback failed")
+var errCbWrapEOF = fmt.Errorf("short read: %w", io.EOF)
 
 func pkgTree(p tds.Package) sx.T {
 	t := renderAny(p).(sx.L)
@@ -547,6 +574,7 @@ func ConsumerRun(need, nenv int, rounds [][]Pkt, calls [][]Call) sx.L {
 		ch.RegisterEnvChangeHooks(func(typ tds.EnvChangeType, o, n string) {})
 	}
 	var res sx.L
+	panicked := false
 	for r, pkts := range rounds {
 		for _, p := range pkts {
 			pkt := &tds.Packet{Data: append([]byte{}, p.Body...)}
@@ -555,7 +583,14 @@ func ConsumerRun(need, nenv int, rounds [][]Pkt, calls [][]Call) sx.L {
 				pkt.Header.Status |= tds.TDS_BUFSTAT_EOM
 			}
 			pkt.Header.Length = uint16(8 + len(p.Body))
-			ch.WritePacket(pkt)
+			if feedPacket(ch, pkt) {
+				panicked = true
+				break
+			}
+		}
+		if panicked {
+			// the channel's locks may still be held by the panicked call: do not touch it again
+			return append(res, sx.L{sx.L{sx.L{sx.I(-1)}, sx.I(0)}})
 		}
 		var rr sx.L
 		for _, c := range calls[r] {
@@ -591,6 +626,9 @@ func ConsumerRun(need, nenv int, rounds [][]Pkt, calls [][]Call) sx.L {
 							case 2:
 								return false, io.EOF
 							case 3:
+								if c.WrapEOF {
+									return false, errCbWrapEOF
+								}
 								return false, errCb
 							}
 						}
@@ -608,7 +646,7 @@ func ConsumerRun(need, nenv int, rounds [][]Pkt, calls [][]Call) sx.L {
 					out = sx.L{sx.I(1), pkgTree(p)}
 				case err == io.EOF:
 					out = sx.L{sx.I(2)}
-				case errors.Is(err, errCb):
+				case errors.Is(err, errCb) || errors.Is(err, errCbWrapEOF):
 					nums := sx.L{}
 					if errors.As(err, &eedErr) {
 						for _, e := range eedErr.EEDPackages {
@@ -634,6 +672,9 @@ func ConsumerRun(need, nenv int, rounds [][]Pkt, calls [][]Call) sx.L {
 
 // GenConsumer: histories of rounds with every callback stop point (short responses) and outcome.
 func GenConsumer(g *pk.Gen) {
+	if !g.WantTag("consumer") {
+		return
+	}
 	rxNoEnvErr = true
 	defer func() { rxNoEnvErr = false }()
 	n := 150
@@ -671,15 +712,15 @@ func GenConsumer(g *pk.Gen) {
 			// calls: a few callbacks that stop / continue, ended by a call that completes the round
 			var cs []Call
 			for k := 0; k < g.Rng.Intn(3); k++ {
-				cs = append(cs, Call{1, g.Rng.Intn(4), []int{1, 2}[g.Rng.Intn(2)]})
+				cs = append(cs, Call{1, g.Rng.Intn(4), []int{1, 2}[g.Rng.Intn(2)], false})
 			}
 			switch g.Rng.Intn(3) {
 			case 0:
-				cs = append(cs, Call{2, 0, 0})
+				cs = append(cs, Call{2, 0, 0, false})
 			case 1:
-				cs = append(cs, Call{1, g.Rng.Intn(5), 3})
+				cs = append(cs, Call{1, g.Rng.Intn(5), 3, g.Rng.Intn(3) == 0})
 			default:
-				cs = append(cs, Call{1, g.Rng.Intn(3), 3}, Call{0, 0, 0})
+				cs = append(cs, Call{1, g.Rng.Intn(3), 3, g.Rng.Intn(3) == 0}, Call{0, 0, 0, false})
 			}
 			rounds = append(rounds, pkts)
 			calls = append(calls, cs)
@@ -695,5 +736,274 @@ func GenConsumer(g *pk.Gen) {
 		need, nenv := g.Rng.Intn(2), g.Rng.Intn(2)
 		res := ConsumerRun(need, nenv, rounds, calls)
 		g.Out.Case(12, sx.L{sx.I(int64(need)), sx.I(int64(nenv)), in}, res, "consumer")
+	}
+}
+
+// ---------------------------------------------------------------- transport level (fn 11)
+// A complete packetised response (bytes on the wire) is cut at byte offset k; the first k bytes are handed to
+// the reader goroutine in the given segments (one per Read), then the transport fails for good.
+// input  (#stream (segment-length ...) k endkind)     endkind 0 = EOF, 1 = connection error
+// output ((delivered package ...) channelErrors connFailed)
+type scriptConn struct {
+	mu   sync.Mutex
+	segs [][]byte
+	end  int
+}
+
+func (c *scriptConn) Read(p []byte) (int, error) {
+	if len(p) == 0 {
+		return 0, nil
+	}
+	c.mu.Lock()
+	defer c.mu.Unlock()
+	if len(c.segs) == 0 {
+		if c.end == 0 {
+			return 0, io.EOF
+		}
+		return 0, errors.New("connection reset by peer")
+	}
+	n := copy(p, c.segs[0])
+	if n == len(c.segs[0]) {
+		c.segs = c.segs[1:]
+	} else {
+		c.segs[0] = c.segs[0][n:]
+	}
+	return n, nil
+}
+func (c *scriptConn) Write(p []byte) (int, error) { return len(p), nil }
+func (c *scriptConn) Close() error                { return nil }
+
+// WireBytes serialises packets as a server would.
+func WireBytes(pkts []Pkt) []byte {
+	var b []byte
+	for _, p := range pkts {
+		st := p.Status
+		if p.EOM {
+			st |= int(tds.TDS_BUFSTAT_EOM)
+		}
+		l := 8 + len(p.Body)
+		b = append(b, byte(p.MsgType), byte(st), byte(l>>8), byte(l), byte(p.Channel>>8), byte(p.Channel), byte(p.Nr), byte(p.Window))
+		b = append(b, p.Body...)
+	}
+	return b
+}
+
+func TransportRun(segs [][]byte, end int, timeoutSec int) (sx.T, float64) {
+	info := &tds.Info{}
+	info.ChannelPackageQueueSize = 100000
+	info.PacketReadTimeout = timeoutSec
+	tr := &scriptConn{end: end}
+	for _, s := range segs {
+		tr.segs = append(tr.segs, append([]byte{}, s...))
+	}
+	// the channel must exist before the reader routes the first packet: create the connection without reader,
+	// then the channel, then start the reader
+	conn, err := tds.VerifNewConn(context.Background(), info, tr, false)
+	if err != nil {
+		panic(err)
+	}
+	ch, _ := conn.NewChannel()
+	start := time.Now()
+	done := make(chan struct{})
+	panicked := false
+	go func() {
+		defer func() {
+			if r := recover(); r != nil {
+				panicked = true
+			}
+			close(done)
+		}()
+		conn.ReadFrom()
+	}()
+	// the reader reports the permanent failure again and again until the connection's error queue (10) is full;
+	// a reader that gives up (returns) is detected through [done]
+	deadline := time.Now().Add(time.Duration(timeoutSec+3) * time.Second)
+	readerGone := false
+wait:
+	for conn.VerifErrChLen() < 10 && time.Now().Before(deadline) {
+		select {
+		case <-done:
+			readerGone = true
+			break wait
+		default:
+		}
+		time.Sleep(200 * time.Microsecond)
+	}
+	elapsed := time.Since(start).Seconds()
+	// channel errors first: once the package queue is empty NextPackage would pick one of the queued errors at random
+	cerrs := 0
+	for ch.VerifNextErr() != nil {
+		cerrs++
+	}
+	dl := sx.L{}
+	for {
+		pkg, err := ch.NextPackage(context.Background(), false)
+		if err != nil {
+			break
+		}
+		dl = append(dl, renderAny(pkg))
+	}
+	// "then an error": every consumer that asks is told, not only the first one; three successive waiting calls,
+	// each with a short context of its own (they return at once when an error is queued)
+	told := 0
+	for i := 0; i < 3; i++ {
+		ctx, cancel := context.WithTimeout(context.Background(), 25*time.Millisecond)
+		_, err := ch.NextPackage(ctx, true)
+		cancel()
+		if err != nil && !errors.Is(err, context.DeadlineExceeded) {
+			told++
+		}
+	}
+	// failed: 1 = the failure is reported to every caller in time; 0 = never; 2 = only to some callers;
+	// 3 = later than the read timeout allows (+2.5 s of scheduling slack); 4 = the reader goroutine panicked
+	failed := 0
+	switch {
+	case panicked:
+		failed = 4
+	case told == 3 && elapsed > float64(timeoutSec)+2.5:
+		failed = 3
+	case told == 3:
+		failed = 1
+	case told > 0:
+		failed = 2
+	}
+	_ = readerGone
+	conn.VerifCancel()
+	return sx.L{dl, sx.I(int64(cerrs)), sx.I(int64(failed))}, elapsed
+}
+
+// GenTransport: every byte offset of short responses x both failure kinds, partitions down to 1-byte reads,
+// splits inside headers.
+func GenTransport(g *pk.Gen) {
+	nresp := 25
+	if g.Thorough {
+		nresp = 400
+	}
+	type slowCase struct {
+		wire []byte
+		k    int
+	}
+	var slow []slowCase
+	ntimeout, maxslow := 6, 32
+	if g.Thorough {
+		ntimeout, maxslow = 60, 320
+	}
+	defer func() {
+		if len(slow) > maxslow {
+			slow = slow[:maxslow]
+		}
+		res := make([]sx.T, len(slow))
+		var wg sync.WaitGroup
+		sem := make(chan struct{}, 16)
+		for j := range slow {
+			wg.Add(1)
+			sem <- struct{}{}
+			go func(j int) {
+				defer wg.Done()
+				defer func() { <-sem }()
+				res[j], _ = TransportRun([][]byte{slow[j].wire[:slow[j].k]}, 0, 1)
+			}(j)
+		}
+		wg.Wait()
+		for j, c := range slow {
+			g.Out.Case(11, sx.L{sx.B(c.wire), sx.L{sx.I(int64(c.k))}, sx.I(int64(c.k)), sx.I(0)}, res[j], "cut-timeout")
+		}
+	}()
+	for i := 0; i < nresp; i++ {
+		msg := stream(Response(g))
+		if len(msg) == 0 {
+			msg = stream([]Item{doneItem(int(tds.TDS_DONE), 0, 0, 0)})
+		}
+		var cuts []int
+		for c := 1; c < len(msg); c++ {
+			if g.Rng.Intn(9) == 0 {
+				cuts = append(cuts, c)
+			}
+		}
+		pkts := Packetise(msg, cuts)
+		if g.Rng.Intn(4) == 0 { // a header-only packet in between
+			pkts = append([]Pkt{{MsgType: int(tds.TDS_BUF_PROTACK)}}, pkts...)
+		}
+		wire := WireBytes(pkts)
+		emit := func(k int, segLens []int, end int, tag string) {
+			if !g.WantTag(tag) {
+				return
+			}
+			var segs [][]byte
+			off := 0
+			var sl sx.L
+			for _, n := range segLens {
+				if off+n > k {
+					n = k - off
+				}
+				if n <= 0 {
+					break
+				}
+				segs = append(segs, wire[off:off+n])
+				sl = append(sl, sx.I(int64(n)))
+				off += n
+			}
+			if off < k {
+				segs = append(segs, wire[off:k])
+				sl = append(sl, sx.I(int64(k-off)))
+			}
+			if sl == nil {
+				sl = sx.L{}
+			}
+			res, _ := TransportRun(segs, end, 0)
+			g.Out.Case(11, sx.L{sx.B(wire), sl, sx.I(int64(k)), sx.I(int64(end))}, res, tag)
+		}
+		// every offset: one read per packet boundary style (whole prefix in one segment), EOF and error
+		step := 1
+		if len(wire) > 160 && !g.Thorough {
+			step = 3
+		}
+		for k := 0; k <= len(wire); k += step {
+			emit(k, []int{k}, k%2, "cut-offset")
+		}
+		emit(len(wire), []int{len(wire)}, 0, "complete")
+		// peer close inside a packet body with a live read timeout (1 s): the reader keeps reading until the timeout
+		// and then reports; offsets: body short by exactly one header size, by one byte, an empty body, a random one.
+		// These cases cost one second each and run in parallel.
+		if g.WantTag("cut-timeout") && i < ntimeout {
+			off := 0
+			for _, p := range pkts {
+				if len(p.Body) > 0 {
+					ks := []int{off + len(p.Body), off + 8 + len(p.Body) - 1, off + 8, off + 8 + g.Rng.Intn(len(p.Body))}
+					for _, k := range ks {
+						if k >= off+8 && k < off+8+len(p.Body) {
+							slow = append(slow, slowCase{wire, k})
+						}
+					}
+				}
+				off += 8 + len(p.Body)
+			}
+		}
+		// partitions of the complete stream: 1-byte reads, random partitions, splits inside each header
+		ones := make([]int, len(wire))
+		for j := range ones {
+			ones[j] = 1
+		}
+		emit(len(wire), ones, 0, "reads-1-byte")
+		for r := 0; r < 6; r++ {
+			var sl []int
+			for rem := len(wire); rem > 0; {
+				n := g.Rng.Range(1, 13)
+				if n > rem {
+					n = rem
+				}
+				sl = append(sl, n)
+				rem -= n
+			}
+			emit(len(wire), sl, g.Rng.Intn(2), "reads-random")
+			emit(g.Rng.Range(0, len(wire)), sl, g.Rng.Intn(2), "reads-random-cut")
+		}
+		off := 0
+		for _, p := range pkts {
+			for h := 1; h < 8; h++ {
+				emit(len(wire), []int{off + h, len(wire) - off - h}, 0, "header-split")
+			}
+			off += 8 + len(p.Body)
+		}
 	}
 }
